@@ -36,8 +36,16 @@ func (m *F81Model) Distance(seq1 []uint8, seq2 []uint8, weights []float64) (floa
 	var dist float64
 
 	diff, total := countDiffs(seq1, seq2, m.selectedSites, weights, false)
+	if total > 0 && diff == 0 {
+		// No difference between the two sequences (whatever the base frequencies)
+		return 0, nil
+	}
 	diff = diff / total
 
+	if !(1.-diff/m.b1 > 0) {
+		// The estimator is undefined (saturated pair, or no comparable site)
+		return math.Inf(1), nil
+	}
 	if m.gamma {
 		dist = 1. * m.b1 * m.alpha * (math.Pow(1.-diff/m.b1, -1./m.alpha) - 1.)
 	} else {
